@@ -201,6 +201,8 @@ bad('c01-echo', 'C01', 'ECHO', 't2data.py', "        if self.type == 'AUTOUGH2' 
 bad('c15-solverarg', 'C15', 'SOLVERARG', 't2thermo.py', "        def f(t): return sat(t[0]) - p", "        def f(t): return sat(t) - p")
 twin('c15-solverarg-twin', 'C15', 't2thermo.py', "        def f(t): return sat(t[0]) - p", "        def f(x):\n            x0 = x[0]\n            return sat(x0) - p")
 
+bad('c17-avoid-caller', 'C17', 'AVOID', 'mulgrids.py', "        self.add_layers(thicknesses, top_elevation, justify, chars, spaces, atm_name)\n", "        self.add_layers(thicknesses, top_elevation, justify, chars, spaces)\n        self.rename_layer(self.layerlist[0].name, atm_name)\n")
+
 
 def _run_one(entry):
     i, pid, rule, kind, fname, old, new = entry
